@@ -215,6 +215,24 @@ def scenarios(tier):
 INERT = dict(constant=('pr', 'tp'), twopoint=('tp',), twolayer=('tp',), array=('pr', 'tp'), power=())
 
 
+def control_range(sc, c):
+    """(lo, hi) of the control values of a gas scenario at the configuration dict c; lo None for the power law
+    (only 'at most its deep-atmosphere value' is stated); the table of known power-law species is input data"""
+    kind = getattr(sc, 'kind', None)
+    if kind == 'constant':
+        return c['mix'], c['mix']
+    if kind in ('twopoint', 'twolayer'):
+        return min(c['surface'], c['top']), max(c['surface'], c['top'])
+    if kind == 'array':
+        return min(c['array']), max(c['array'])
+    if kind == 'power':
+        deep = c['surface']
+        if deep is None:
+            deep = classes()['power']('H2O').check_known(sc.mol if c['ptype'] == 'auto' else c['ptype'])[3]
+        return None, (None if deep is None else float(deep))
+    return None, None
+
+
 def preflight(ctx, scs):
     """non-vacuity: a fresh object at the base configuration and at every singly-changed configuration
     evaluates (an exception on both sides would make 'long-lived == fresh' hold trivially)."""
@@ -235,6 +253,13 @@ def preflight(ctx, scs):
                 for k, a in o.items():
                     if isinstance(a, np.ndarray) and a.dtype.kind == 'f' and not np.all(np.isfinite(a)):
                         ok, det = False, 'non-finite %s' % k
+                lo, hi = control_range(sc, sc.config(list(c)))
+                if ok and hi is not None:      # the range clause of the property at every configuration the walks visit singly
+                    m = o['mix']
+                    inr = np.all(m <= hi * (1 + 1e-9)) and (np.all(m >= lo * (1 - 1e-9)) if lo is not None else np.all(m > 0.0))
+                    ctx.verdict('fresh_profile_within_control_range', bool(inr), cls=sc.name,
+                                detail='%s at %r: profile min %r max %r, control range [%r, %r]' % (sc.name, c, float(m.min()), float(m.max()), lo, hi),
+                                vector=dict(history=sc.name, init=c, trail=['eval']))
             except Exception as e:
                 ok, det = False, '%s: %s' % (type(e).__name__, str(e)[:100])
             ctx.verdict('fresh_object_evaluates', ok, cls=sc.name, detail='%s at %r: %s' % (sc.name, c, det),
@@ -261,6 +286,16 @@ def replay(ctx, viol, tier):
         raise Machinery('replay: unknown history scenario %r' % vec['history'])
     tup = lambda v: tuple(v) if isinstance(v, list) else v
     end = [tup(v) for v in vec['init']]
+    if viol['clause'] == 'fresh_profile_within_control_range':
+        lo, hi = control_range(sc, sc.config(list(end)))
+        try:
+            m = sc.observe(sc.fresh(list(end)))['mix']
+            inr = bool(np.all(m <= hi * (1 + 1e-9)) and (np.all(m >= lo * (1 - 1e-9)) if lo is not None else np.all(m > 0.0)))
+            det = 'profile min %r max %r, control range [%r, %r]' % (float(m.min()), float(m.max()), lo, hi)
+        except Exception as e:
+            inr, det = False, repr(e)
+        ctx.verdict(viol['clause'], inr, cls=viol['cls'], detail='replay at %r: %s' % (end, det), vector=vec)
+        return
     steps, first = [], {}
     for step in vec['trail']:
         if step.startswith('set') and '=' in step:
